@@ -8,6 +8,7 @@
 (3) witness search: the property itself on the real classes (refit-vs-fresh, unfitted raises, validation,
     get_instance, no dependence on uninitialised memory).
 """
+COQCHK = ['C19_utils', 'C19_gm']   # cones without Coquelicot / Interval: coqchk -o re-checks them in about a minute each (thorough tier)
 import ast
 from vf import srcnorm as _srcnorm
 import json
